@@ -40,10 +40,12 @@ class LocatedRequestCallableRecursionResolver(RecursionResolver[LocatedRequest, 
         self._outer_depth: Optional[int] = None
 
     def track_request(self, request: LocatedRequest) -> Optional[Any]:
-        if self._outer_depth is None:
-            # A retort placed in a recipe gets a request with the loc stack of the outer retort.
-            # The requests of these locations are tracked by the outer resolver, a stub made for them here is never bound
-            self._outer_depth = len(request.loc_stack) - 1
+        # A retort placed in a recipe gets requests with the loc stack of the outer retort as a prefix.
+        # The requests of these locations are tracked by the outer resolver, a stub made for them here is never bound.
+        # All requests of one search share this prefix, so it is not longer than the shortest loc stack seen
+        depth = len(request.loc_stack) - 1
+        if self._outer_depth is None or depth < self._outer_depth:
+            self._outer_depth = depth
 
         last_loc = request.last_loc
         if sum(loc == last_loc for loc in islice(request.loc_stack, self._outer_depth, None)) == 1:
